@@ -45,6 +45,7 @@ fn entries() -> Vec<Entry> {
     e!("crypto_secretstream_keygen", Kind::Ident, 32, { let mut k = [0u8; 32]; crypto_secretstream_xchacha20poly1305::crypto_secretstream_xchacha20poly1305_keygen(&mut k); k.to_vec() });
     e!("crypto_secretstream_init_push.header", Kind::Ident, 24, { let mut st = crypto_secretstream_xchacha20poly1305::State::new(); let mut h = [0u8; 24]; crypto_secretstream_xchacha20poly1305::crypto_secretstream_xchacha20poly1305_init_push(&mut st, &mut h, &[7u8; 32]); h.to_vec() });
     e!("crypto_sign_keypair", Kind::SignSeed, 32, { let (pk, sk) = crypto_sign::crypto_sign_keypair(); [pk.to_vec(), sk.to_vec()].concat() });
+    e!("crypto_sign_keypair_inplace", Kind::SignSeed, 32, { let (mut pk, mut sk) = ([0u8; 32], [0u8; 64]); crypto_sign::crypto_sign_keypair_inplace(&mut pk, &mut sk); [pk.to_vec(), sk.to_vec()].concat() });
     e!("crypto_box_seal.ephemeral", Kind::SealedEpk, 32, { let mut c = vec![0u8; 48 + 3]; crypto_box::crypto_box_seal(&mut c, b"abc", &sodium::scalarmult_base(&[9u8; 32])).unwrap(); c[..32].to_vec() });
     e!("crypto_pwhash_str.salt", Kind::Ident, 16, { let s = crypto_pwhash::crypto_pwhash_str(b"pw", 1, 8192).unwrap(); let f: Vec<&str> = s.split('$').collect(); b64dec(f[4]) });
     e!("StackByteArray<32>::gen", Kind::Ident, 32, StackByteArray::<32>::gen().to_vec());
@@ -57,6 +58,9 @@ fn entries() -> Vec<Entry> {
     e!("KeyPair::gen", Kind::Pair, 32, { let kp = dryoc::keypair::StackKeyPair::gen(); [kp.public_key.to_vec(), kp.secret_key.to_vec()].concat() });
     e!("kx::KeyPair::gen", Kind::Pair, 32, { let kp = dryoc::kx::KeyPair::gen(); [kp.public_key.to_vec(), kp.secret_key.to_vec()].concat() });
     e!("SigningKeyPair::gen", Kind::SignSeed, 32, { let kp = dryoc::sign::SigningKeyPair::<dryoc::sign::PublicKey, dryoc::sign::SecretKey>::gen(); [kp.public_key.to_vec(), kp.secret_key.to_vec()].concat() });
+    e!("KeyPair::gen_with_defaults", Kind::Pair, 32, { let kp = dryoc::keypair::StackKeyPair::gen_with_defaults(); [kp.public_key.to_vec(), kp.secret_key.to_vec()].concat() });
+    e!("SigningKeyPair::gen_with_defaults", Kind::SignSeed, 32, { let kp = dryoc::sign::SigningKeyPair::<dryoc::sign::PublicKey, dryoc::sign::SecretKey>::gen_with_defaults(); [kp.public_key.to_vec(), kp.secret_key.to_vec()].concat() });
+    e!("Kdf::gen_with_defaults (key, context)", Kind::Ident, 40, { let (k, c) = dryoc::kdf::StackKdf::gen_with_defaults().into_parts(); [k.to_vec(), c.to_vec()].concat() });
     e!("Kdf::gen (key, context)", Kind::Ident, 40, { let (k, c) = dryoc::kdf::StackKdf::gen().into_parts(); [k.to_vec(), c.to_vec()].concat() });
     e!("DryocBox::seal.ephemeral", Kind::SealedEpk, 32, { let bx = dryoc::dryocbox::VecBox::seal_to_vecbox(b"abc", &StackByteArray::<32>::from(&sodium::scalarmult_base(&[9u8; 32]))).unwrap(); bx.to_vec()[..32].to_vec() });
     e!("DryocStream::init_push.header", Kind::Ident, 24, { let (_s, h): (dryoc::dryocstream::DryocStream<dryoc::dryocstream::Push>, StackByteArray<24>) = dryoc::dryocstream::DryocStream::init_push(&StackByteArray::<32>::from(&[7u8; 32])); h.to_vec() });
